@@ -9,7 +9,7 @@
                        strictly inside (1 - rel_tol) * the aggregated battery exclusion zone
    On the unchanged tree C02 was refuted by corpus/C02/*.json (fix commits ccb79d8, fcfd05e, 5d1dfb7). *)
 From Coq Require Import QArith List.
-From Verif Require Import gen.DistConst model.Dist proofs.DistFacts proofs.DistBounds proofs.DistTop proofs.DistRemainder proofs.DistWitness.
+From Verif Require Import gen.DistConst model.Dist model.DistMgr proofs.DistMgrFacts proofs.DistFacts proofs.DistBounds proofs.DistTop proofs.DistRemainder proofs.DistWitness.
 Import ListNotations.
 Open Scope Q_scope.
 
@@ -29,6 +29,12 @@ Theorem C02_group : forall powf gs p r gr,
   wf_groups gs -> czero p = false -> distribute powf gs p = Some r -> In gr (res_groups r) ->
   exists g, In g gs /\ gr_src gr = prepare (supply_of p) powf g /\ group_full g gr.
 Proof. exact distribute_group. Qed.
+
+(* a request BatteryManager serves is exactly the algorithm's result on the data it was given, so the theorems above
+   apply to the set_power calls of the manager stream (model/DistMgr.v) *)
+Theorem C02_manager_runs_the_algorithm : forall powf gs p adj rr,
+  manager_request powf gs p adj = MDone rr -> run_request powf gs p = Some rr /\ check_request gs p adj = true.
+Proof. exact manager_done. Qed.
 
 (* a group with no SoC headroom in the requested direction gets zero on every inverter, for every pow function
    with pow(0) = 0, i.e. every exponent > 0 (exponent 0: pow(0, 0) = 1, known finding C02-exponent0-full-battery) *)
@@ -66,6 +72,7 @@ Qed.
 Print Assumptions C02_inverter.
 Print Assumptions C02_inverter_multi_exact.
 Print Assumptions C02_group.
+Print Assumptions C02_manager_runs_the_algorithm.
 Print Assumptions C02_no_headroom.
 Print Assumptions C02_manager_exponent.
 Print Assumptions C02_every_component_has_a_setpoint.
